@@ -431,6 +431,22 @@ class KroneckerProductTriangularLinearOperator(KroneckerProductLinearOperator, _
         right_tensor: Union[Float[Tensor, "... N P"], Float[Tensor, " N"]],
         left_tensor: Optional[Float[Tensor, "... O N"]] = None,
     ) -> Union[Float[Tensor, "... N P"], Float[Tensor, "... N"], Float[Tensor, "... O P"], Float[Tensor, "... O"]]:
+        # (same shape validation as LinearOperator.solve: _solve reshapes the right-hand side by the factor sizes)
+        if self.dim() == 2 and right_tensor.dim() == 1:
+            if self.shape[-1] != right_tensor.numel():
+                raise RuntimeError(
+                    "LinearOperator (size={}) cannot be multiplied with right-hand-side Tensor (size={}).".format(
+                        self.shape, right_tensor.shape
+                    )
+                )
+        else:
+            _matmul_broadcast_shape(
+                self.shape,
+                right_tensor.shape,
+                error_msg="LinearOperator (size={}) cannot be multiplied with right-hand-side Tensor (size={}).".format(
+                    self.shape, right_tensor.shape
+                ),
+            )
         # For triangular components, using triangular-triangular substition should generally be good
         return self._inv_matmul(right_tensor=right_tensor, left_tensor=left_tensor)
 
